@@ -64,13 +64,55 @@ var schedAssumptions = append([]string{"scheduler model (engine/sched.go): gorou
 	"sync.Mutex/RWMutex, channels, select, sync/atomic, time.Timer/Ticker are modelled by the engine; context and gopkg.in/tomb.v2 run from their real SSA; timers fire only when no goroutine can run",
 	"counterexamples are schedules of the model and are not replayed natively (the Go scheduler cannot be steered without hooks)"}, commonAssumptions...)
 
+// operation kinds of harness/root/state.go
+const (
+	opInsert = iota
+	opReplace
+	opUpdateOne
+	opUpdateMany
+	opDelete
+	opUpsert
+	opCount
+	opCreateIndex
+	opDropIndex
+	opDrop
+	opClean
+	opExpire
+	opInsertMany
+	opBulk
+)
+
+var opNames = map[int]string{opCreateIndex: "index creation", opDropIndex: "index drop", opDrop: "namespace / database drop", opClean: "retention", opExpire: "expiry pass", opInsertMany: "insert-many with individually failing items", opBulk: "bulk write with individually failing items"}
+
+// stepFamily: the inductive-step harness H_STEP for one property: all single-document writes from the
+// canonical state, plus one small run per additional operation kind.
+func stepFamily(prop int, extra []int) []Harness {
+	hs := []Harness{{Dir: ".", Func: "H_STEP", Quick: P{"prop": prop, "maxdocs": 1, "tags": stQuickTags, "ctags": TInt32}, Thorough: P{"prop": prop, "maxdocs": 2, "tags": stQuickTags, "ctags": TInt32},
+		Note: "insert / replace / update-one / update-many / delete / upsert from the canonical state"}}
+	for _, op := range extra {
+		q := P{"prop": prop, "maxdocs": 1, "op": op, "tags": TInt32 | TString, "ctags": TInt32}
+		t := P{"prop": prop, "maxdocs": 2, "op": op, "tags": stQuickTags, "ctags": TInt32}
+		if op == opInsertMany || op == opBulk {
+			// two items per call: keep the value domain small in the quick tier
+			q["partial"] = 0
+			q["useb"] = 0
+			q["tags"] = TInt32
+			t["maxdocs"] = 1
+			t["tags"] = TInt32 | TString
+			t["partial"] = 0
+		}
+		hs = append(hs, Harness{Dir: ".", Func: "H_STEP", Quick: q, Thorough: t, Note: opNames[op]})
+	}
+	return hs
+}
+
 const stQuickTags = TNull | TInt32 | TString | TArray
 
 var stBounds = []string{"canonical state: namespace db.c with <= maxdocs documents {_id: i, a?: X, b?: Y} inserted through the real Transaction.Insert, optional secondary index on a (unique or not, partial {b: {$gt: c}} or not); X from tags (arrays <= 2 elements of ctags), Y int32/null",
 	"operation: insert (with/without _id), replace, update-one, update-many, delete (one/many), upsert with filters {}, {_id: k}, {a: v} and updates $set a, $inc a, $set b, $push a; index create (a or b, unique, partial), index drop, namespace/database drop, retention, expiry where stated",
 	"outside: Decimal128, compound indexes, more documents than stated (covered by the induction argument), the codec"}
 
-const c10Tags =TNull | TInt32 | TInt64 | TDouble | TString | TBool | TArray | TDoc
+const c10Tags = TNull | TInt32 | TInt64 | TDouble | TString | TBool | TArray | TDoc
 
 var checks = []Check{
 	{
@@ -176,62 +218,39 @@ var checks = []Check{
 	},
 	{
 		Property: "C15",
-		Harnesses: []Harness{
-			{Dir: ".", Func: "H_STEP", Quick: P{"prop": 1, "maxdocs": 1, "tags": stQuickTags, "ctags": TInt32}, Thorough: P{"prop": 1, "maxdocs": 2, "tags": stQuickTags, "ctags": TInt32}, Note: "document writes from the canonical state"},
-			{Dir: ".", Func: "H_STEP", Quick: P{"prop": 1, "maxdocs": 1, "allops": 1, "op": 7, "tags": stQuickTags, "ctags": TInt32}, Thorough: P{"prop": 1, "maxdocs": 2, "op": 7, "tags": stQuickTags, "ctags": TInt32}, Note: "index creation"},
-			{Dir: ".", Func: "H_STEP", Quick: P{"prop": 1, "maxdocs": 1, "op": 8, "tags": stQuickTags, "ctags": TInt32}, Thorough: P{"prop": 1, "maxdocs": 2, "op": 8, "tags": stQuickTags, "ctags": TInt32}, Note: "index drop"},
-			{Dir: ".", Func: "H_STEP", Quick: P{"prop": 1, "maxdocs": 1, "op": 12, "tags": TInt32 | TString, "ctags": TInt32, "partial": 0}, Thorough: P{"prop": 1, "maxdocs": 1, "op": 12, "tags": stQuickTags, "ctags": TInt32}, Note: "insert-many with individually failing items"},
-			{Dir: ".", Func: "H_STEP", Quick: P{"prop": 1, "maxdocs": 1, "op": 13, "tags": TInt32 | TString, "ctags": TInt32, "partial": 0}, Thorough: P{"prop": 1, "maxdocs": 1, "op": 13, "tags": stQuickTags, "ctags": TInt32}, Note: "bulk write with individually failing items"},
-			{Dir: ".", Func: "H_C06_roundtrip", Quick: P{"maxdocs": 1, "tags": stQuickTags, "ctags": TInt32}, Thorough: P{"maxdocs": 2, "tags": stQuickTags, "ctags": TInt32}, Note: "reload: rebuilt indexes are coherent"},
-			lemClone,
-		},
+		Harnesses: append(stepFamily(1, []int{opInsertMany, opBulk, opCreateIndex, opDropIndex}),
+			Harness{Dir: ".", Func: "H_C06_roundtrip", Quick: P{"maxdocs": 1, "tags": stQuickTags, "ctags": TInt32}, Thorough: P{"maxdocs": 2, "tags": stQuickTags, "ctags": TInt32}, Note: "reload: rebuilt indexes are coherent"},
+			lemClone),
 		Assumptions: append([]string{"inductive step: the pre-state is a catalog built through the real API from a symbolic document list and index configuration (DESIGN.md 3.4); closure under histories of any length is the written induction argument, not a solver fact"}, commonAssumptions...),
 		Bounds:      stBounds,
 	},
 	{
-		Property: "C07",
-		Harnesses: []Harness{
-			{Dir: ".", Func: "H_STEP", Quick: P{"prop": 2, "maxdocs": 1, "tags": stQuickTags, "ctags": TInt32}, Thorough: P{"prop": 2, "maxdocs": 2, "tags": stQuickTags, "ctags": TInt32}},
-			{Dir: ".", Func: "H_STEP", Quick: P{"prop": 2, "maxdocs": 1, "op": 7, "tags": stQuickTags, "ctags": TInt32}, Thorough: P{"prop": 2, "maxdocs": 2, "op": 7, "tags": stQuickTags, "ctags": TInt32}, Note: "unique index build over existing documents"},
-			{Dir: ".", Func: "H_STEP", Quick: P{"prop": 3, "maxdocs": 1, "op": 13, "tags": TInt32 | TString, "ctags": TInt32, "partial": 0}, Thorough: P{"prop": 3, "maxdocs": 1, "op": 13, "tags": stQuickTags, "ctags": TInt32}, Note: "bulk write: a failing item leaves no half-updated index behind (coherence + uniqueness)"},
-			lemClone,
-		},
+		Property:    "C07",
+		Harnesses:   append(stepFamily(2, []int{opBulk, opCreateIndex}), lemClone),
 		Assumptions: append([]string{"inductive step from the canonical state (DESIGN.md 3.4); the pre-state is assumed duplicate-free and the same predicate is asserted of every post-state"}, commonAssumptions...),
 		Bounds:      stBounds,
 	},
 	{
-		Property: "C02",
-		Harnesses: []Harness{
-			{Dir: ".", Func: "H_STEP", Quick: P{"prop": 4, "maxdocs": 1, "tags": stQuickTags, "ctags": TInt32}, Thorough: P{"prop": 4, "maxdocs": 2, "tags": stQuickTags, "ctags": TInt32}},
-			{Dir: ".", Func: "H_STEP", Quick: P{"prop": 4, "maxdocs": 1, "op": 7, "tags": stQuickTags, "ctags": TInt32}, Thorough: P{"prop": 4, "maxdocs": 2, "op": 7, "tags": stQuickTags, "ctags": TInt32}, Note: "failing index creation"},
-			{Dir: ".", Func: "H_STEP", Quick: P{"prop": 4, "maxdocs": 1, "op": 8, "tags": stQuickTags, "ctags": TInt32}, Thorough: P{"prop": 4, "maxdocs": 2, "op": 8, "tags": stQuickTags, "ctags": TInt32}, Note: "failing index drop"},
-			{Dir: ".", Func: "H_STEP", Quick: P{"prop": 5, "maxdocs": 1, "op": 13, "tags": TInt32 | TString, "ctags": TInt32, "partial": 0}, Thorough: P{"prop": 5, "maxdocs": 1, "op": 13, "tags": stQuickTags, "ctags": TInt32}, Note: "bulk write: exactly the items that succeeded take effect, failing items contribute nothing (coherence of every index afterwards)"},
-			{Dir: ".", Func: "H_STEP", Quick: P{"prop": 5, "maxdocs": 1, "op": 12, "tags": TInt32 | TString, "ctags": TInt32, "partial": 0}, Thorough: P{"prop": 5, "maxdocs": 1, "op": 12, "tags": stQuickTags, "ctags": TInt32}, Note: "insert-many: failing items contribute nothing"},
-			lemClone, lemCloneFresh,
-		},
+		Property:    "C02",
+		Harnesses:   append(stepFamily(4|1, []int{opInsertMany, opBulk, opCreateIndex, opDropIndex}), lemClone, lemCloneFresh),
 		Assumptions: append([]string{"inductive step from the canonical state (DESIGN.md 3.4); freeze monitor: every heap slot, map and btree node reachable from the pre-call catalog is marked and any store into it is a violation"}, commonAssumptions...),
 		Bounds:      stBounds,
 	},
 	{
 		Property: "C08",
-		Harnesses: []Harness{
-			{Dir: ".", Func: "H_STEP", Quick: P{"prop": 8, "maxdocs": 1, "index": 0, "tags": stQuickTags, "ctags": TInt32}, Thorough: P{"prop": 8, "maxdocs": 2, "tags": stQuickTags, "ctags": TInt32}},
-			{Dir: ".", Func: "H_C08_clean", Quick: P{"maxevents": 3}, Thorough: P{"maxevents": 4}},
-			lemClone,
-		},
+		Harnesses: append(stepFamily(8, []int{opBulk}),
+			Harness{Dir: ".", Func: "H_C08_clean", Quick: P{"maxevents": 3}, Thorough: P{"maxevents": 4}},
+			lemClone),
 		Assumptions: append([]string{"clock model: time.Now returns arbitrary non-decreasing instants between 2001 and 2100 (so the uint32 age arithmetic of Clean cannot wrap); bsonkit.Now runs from its real SSA on top of it"}, commonAssumptions...),
 		Bounds:      append([]string{"retention: oplog of <= maxevents events with symbolic timestamps, min/max size in 0..4, min age in {0,1s,10s,1h}, max age in {1s,10s,1h}; the clock does not tick during the call; at the exact boundary second of the maximum age either outcome is accepted", "update events: updatedFields/removedFields faithfulness is covered only through the full-document replay (field-level diff is outside this check)"}, stBounds...),
 	},
 	{
 		Property: "C03",
-		Harnesses: []Harness{
-			{Dir: ".", Func: "H_STEP", Quick: P{"prop": 16, "maxdocs": 1, "tags": stQuickTags, "ctags": TInt32}, Thorough: P{"prop": 16, "maxdocs": 2, "tags": stQuickTags, "ctags": TInt32}, Note: "snapshot immutability under every document write"},
-			{Dir: ".", Func: "H_STEP", Quick: P{"prop": 16, "maxdocs": 1, "allops": 1, "tags": TInt32 | TString, "ctags": TInt32, "partial": 0}, Thorough: P{"prop": 16, "maxdocs": 2, "allops": 1, "tags": TInt32 | TString | TArray, "ctags": TInt32}, Note: "snapshot immutability under index builds/drops, namespace drops, retention and expiry"},
-			{Dir: ".", Func: "H_STEP", Quick: P{"prop": 16, "ops": 2, "maxdocs": 1, "index": 0, "tags": TInt32 | TString, "ctags": TInt32}, Thorough: P{"prop": 16, "ops": 2, "maxdocs": 2, "tags": TInt32 | TString, "ctags": TInt32}, Note: "two consecutive writes while a reader holds the first snapshot"},
-			{Dir: ".", Func: "H_C05_engine", Quick: P{"fixedclock": 1}, Thorough: P{}, Note: "a commit that cannot be persisted never becomes visible"},
-			{Dir: ".", Func: "H_C03_session", Quick: P{"fixedclock": 1}, Thorough: P{}, Note: "atomic visibility: a second client sees nothing until commit and everything after it; abort/end leave no trace; the transaction sees its own writes"},
-			lemClone, lemCloneFresh,
-		},
+		Harnesses: append(stepFamily(16, []int{opInsertMany, opBulk, opCreateIndex, opDropIndex, opDrop, opClean, opExpire}),
+			Harness{Dir: ".", Func: "H_STEP", Quick: P{"prop": 16, "ops": 2, "maxdocs": 1, "index": 0, "useb": 0, "tags": TInt32 | TString, "ctags": TInt32}, Thorough: P{"prop": 16, "ops": 2, "maxdocs": 2, "index": 0, "tags": TInt32 | TString, "ctags": TInt32}, Note: "two consecutive writes while a reader holds the first snapshot"},
+			Harness{Dir: ".", Func: "H_C05_engine", Quick: P{"fixedclock": 1}, Thorough: P{}, Note: "a commit that cannot be persisted never becomes visible"},
+			Harness{Dir: ".", Func: "H_C03_session", Quick: P{"fixedclock": 1}, Thorough: P{}, Note: "atomic visibility: a second client sees nothing until commit and everything after it; abort/end leave no trace; the transaction sees its own writes"},
+			lemClone, lemCloneFresh),
 		Assumptions: append([]string{"immutability is decided by the freeze monitor on the engine's heap model (slice backing arrays, maps, the real btree nodes): a store into anything reachable from an earlier catalog is a violation on any path; atomic visibility of session transactions (commit/abort) is covered by the engine-level harnesses listed here, interleavings by C04"}, commonAssumptions...),
 		Bounds:      stBounds,
 	},
